@@ -5,6 +5,7 @@ cd "$(dirname "$0")/../harness" || exit 1
 cp "${VERIF_REPO:-/repo}/go.sum" go.sum
 mkdir -p ../bin ../evidence
 for d in cmd/*/; do
+  ls "$d"*.go >/dev/null 2>&1 || continue
   n=$(basename "$d")
   go build -tags verif -o "../bin/$n" "./cmd/$n" || exit 1
 done
